@@ -99,6 +99,8 @@ var (
 	c34D   = common.HexToAddress("0xd000000000000000000000000000000000003406") // self-destructs to F2
 	c34CB  = common.HexToAddress("0xcb00000000000000000000000000000000003407") // fee recipient (absent before the block)
 	c34Pfx = "0xa0000000000000000000000000000000000034"                        // prober contracts a0..34NN
+	c34Bank1 = common.HexToAddress("0xba00000000000000000000000000000000003408")
+	c34Bank2 = common.HexToAddress("0xbb00000000000000000000000000000000003409")
 )
 
 type c34Unit struct {
@@ -208,6 +210,15 @@ func c34NewWorld(f c34Fork) *c34World {
 	}}
 	alloc[c34T] = types.Account{Code: tCode, Nonce: 1, Balance: common.Big0}
 	alloc[c34D] = types.Account{Code: dCode, Nonce: 1, Balance: big.NewInt(900)}
+	// BANKn: called with calldata: CALL(peer, value 7); called without (the peer's payment): STOP
+	bank := func(peer common.Address) []byte {
+		send := program.New().Call(nil, peer, 7, 0, 0, 0, 0).Op(vm.POP, vm.STOP).Bytes()
+		p := program.New().Op(vm.CALLDATASIZE, vm.ISZERO).Op(vm.PUSH2)
+		dest := p.Size() + 2 + 1 + len(send)
+		return p.Append([]byte{byte(dest >> 8), byte(dest)}).Op(vm.JUMPI).Append(send).Op(vm.JUMPDEST, vm.STOP).Bytes()
+	}
+	alloc[c34Bank1] = types.Account{Code: bank(c34Bank2), Nonce: 1, Balance: big.NewInt(100)}
+	alloc[c34Bank2] = types.Account{Code: bank(c34Bank1), Nonce: 1, Balance: big.NewInt(100)}
 
 	// prober contracts; each writes its observation into its own slot 0
 	store0 := func(p *program.Program) []byte { return p.Push(0).Op(vm.SSTORE, vm.STOP).Bytes() }
@@ -272,6 +283,16 @@ func c34NewWorld(f c34Fork) *c34World {
 		c34Unit{name: "S_CLEAR_2", sender: 1, to: c34S, data: pair(s2, 0), core: true},
 		c34Unit{name: "S_CLEAR_ALL", sender: 0, to: c34S, data: append(append(pair(s1, 0), pair(s2, 0)...), pair(s3, 0)...), core: true},
 		c34Unit{name: "S_INSERT", sender: 1, to: c34S, data: pair(0x77, 0x99), core: true},
+		// set a pre-existing slot to another value / back to its pre-block value (by another sender) /
+		// back to its pre-block value together with a net change of another slot: ordered selections
+		// contain change-then-restore, delete-then-restore, change-delete-restore (net-zero storage
+		// changes across transactions) and restore combined with another net change in the same contract
+		c34Unit{name: "S_SET_1_OTHER", sender: 0, to: c34S, data: pair(s1, 0x55), core: true},
+		c34Unit{name: "S_SET_1_ORIG", sender: 1, to: c34S, data: pair(s1, 0x11), core: true},
+		c34Unit{name: "S_RESTORE_1_SET_3", sender: 1, to: c34S, data: append(pair(s1, 0x11), pair(s3, 0x44)...), core: true},
+		// net-zero balance changes across transactions: BANK1 pays BANK2 7 wei, BANK2 pays BANK1 7 wei
+		c34Unit{name: "BANK1_PAYS", sender: 0, to: c34Bank1, data: []byte{1}},
+		c34Unit{name: "BANK2_PAYS", sender: 1, to: c34Bank2, data: []byte{1}},
 		c34Unit{name: "S_READ_2", sender: 0, to: c34S, data: c34Word(s2)},
 		c34Unit{name: "S_READ_ABSENT", sender: 1, to: c34S, data: c34Word(0x78)},
 		c34Unit{name: "S_NOOP_WRITE_3", sender: 0, to: c34S, data: pair(s3, 0x33)},
